@@ -27,6 +27,7 @@ import MdModel.Walk.Proto
 import MdModel.Walk.Layout
 import MdModel.Walk.WinWalk
 import MdModel.Walk.LayoutMixed
+import MdModel.Walk.LayoutGen
 namespace MdModel.Walk
 open MdModel MdModel.Proto
 
@@ -77,7 +78,8 @@ def parseWins (mods : List Module) (field : String) : Option (List (List Win.Rec
 /-- `chain pre <technique> exp:<frames> [win:<records>] <walk fields>`: the decidable precondition
     of the C04 theorems on a generated case;
     `chain walk win:<records> <walk fields>`: the walk itself with STACK WIN records present;
-    `chain layout fp <base> <s0> <f0> <tail> <gap:ret,..|->`: the generator's x86-64 frame-pointer layout -/
+    `chain layout fp <base> <s0> <f0> <tail> <gap:ret,..|->`: the generator's x86-64 frame-pointer layout;
+    `chain layout fpg <arch> <base> <s0> <f0> <tail> <gap:ret,..|->`: the same generically in the architecture -/
 def handleChain (args : List String) : String :=
   match args with
   | "walk" :: win :: rest =>
@@ -104,6 +106,22 @@ def handleChain (args : List String) : String :=
         s!"rsp={wAddr b s} rbp={wAddr b f} stack:{hex (wordsMem b (fpWords b f t cs)).bytes.toList} exp:{"|".intercalate ((fpChain b f cs).map showExp)}"
       else "bad-op"
     | _, _, _, _, _ => "bad-op"
+  | ["layout", "fpg", arch, base, s0, f0, tail, calls] =>
+    -- the generator's frame-pointer layout on any architecture with the technique
+    -- (`gfpWords` / `gfpChain`, Walk/LayoutGen.lean; `preFp` of it: MdProofs/C04Gen.lean)
+    let cs : Option (List (Nat × Nat)) :=
+      if calls = "-" then some []
+      else (pieces calls ",").mapM fun c =>
+        match c.splitOn ":" with
+        | [g, r] => do let g ← optNat g; let r ← optNat r; some (g, r)
+        | _ => none
+    match Arch.ofStr arch, optNat base, optNat s0, optNat f0, optNat tail, cs with
+    | some a, some b, some s, some f, some t, some cs =>
+      if s ≤ f ∧ b ≤ U64MAX ∧ f ≤ 4096 ∧ t ≤ 4096 ∧ cs.all (fun c => decide (c.1 ≤ 4096)) then
+        let showExp := fun (e : Exp) => s!"{e.ret},{e.sp},{(e.fp.map toString).getD "-"}"
+        s!"sp={pAddr a.ptr b s} fp={pAddr a.ptr b f} stack:{hex (wordsMemP a.ptr b (gfpWords a.ptr b f t cs)).bytes.toList} exp:{"|".intercalate ((gfpChain a.ptr b f cs).map showExp)}"
+      else "bad-op"
+    | _, _, _, _, _, _ => "bad-op"
   | "pre" :: tech :: exp :: rest =>
     let (win, rest) := match rest with
       | f :: more => if f.startsWith "win:" then (f, more) else ("win:-", rest)
